@@ -134,6 +134,8 @@ func (u *unroller) list(l *[]ast.Stmt) bool {
 		}
 		var groups []*rowGroup
 		var arr *ast.ArrayType
+		var handedOn []*types.Var
+		accountedAll := false
 		defIdx := -1
 		switch x := rs.X.(type) {
 		case *ast.CompositeLit:
@@ -149,24 +151,61 @@ func (u *unroller) list(l *[]ast.Stmt) bool {
 			if tv == nil || tv.IsField() || tv.Pkg() == nil || tv.Parent() == tv.Pkg().Scope() {
 				continue
 			}
-			// the definition, in this list, before the loop
+			// the definition: in this list before the loop, or — through names that only
+			// hand the slice on (`cs := xpna2`, the parameter of an inlined variadic helper) —
+			// a literal declared in an enclosing list
 			var lit *ast.CompositeLit
-			for i := 0; i < j; i++ {
-				switch d := (*l)[i].(type) {
-				case *ast.AssignStmt:
-					if d.Tok == token.DEFINE && len(d.Lhs) == 1 && len(d.Rhs) == 1 {
-						if id, ok := d.Lhs[0].(*ast.Ident); ok && info.Defs[id] == types.Object(tv) {
-							lit, _ = d.Rhs[0].(*ast.CompositeLit)
-							defIdx = i
+			var chain []*types.Var // names between the literal's variable and the loop
+			defList := l
+			{
+				cur := tv
+				for hop := 0; hop < 4 && lit == nil; hop++ {
+					d := u.defOf(cur)
+					if d == nil && hop == 0 {
+						d = u.defOf(cur, true) // `rows = append(rows, …)` is looked at below
+						if d != nil && d.list != l {
+							d = nil
 						}
 					}
-				case *ast.DeclStmt:
-					if gd, ok := d.Decl.(*ast.GenDecl); ok && gd.Tok == token.VAR && len(gd.Specs) == 1 {
-						vs := gd.Specs[0].(*ast.ValueSpec)
-						if len(vs.Names) == 1 && len(vs.Values) == 1 && vs.Type == nil && info.Defs[vs.Names[0]] == types.Object(tv) {
-							lit, _ = vs.Values[0].(*ast.CompositeLit)
-							defIdx = i
+					if d == nil {
+						break
+					}
+					switch r := d.rhs.(type) {
+					case *ast.CompositeLit:
+						lit, defList, defIdx = r, d.list, d.idx
+						if !d.single {
+							lit = nil // a literal among other definitions: evaluation order with its neighbours
 						}
+						tv = cur
+					case *ast.Ident:
+						w, _ := info.Uses[r].(*types.Var)
+						if w == nil || w.IsField() || w.Pkg() == nil || w.Parent() == w.Pkg().Scope() {
+							hop = 99
+							break
+						}
+						chain = append(chain, cur)
+						cur = w
+					default:
+						hop = 99
+					}
+				}
+				if lit != nil && (defList != l || len(chain) > 0) {
+					// only handed on: every use of every name is the hand-over, the loop, or a blank
+					okc := true
+					names := append([]*types.Var{tv}, chain...)
+					for _, nm := range names {
+						for id, o := range info.Uses {
+							if o != types.Object(nm) || id.Pos() < u.fn.Pos() || id.Pos() > u.fn.End() {
+								continue
+							}
+							if id == x || u.isBlankUse(id) || u.isHandOver(id, names) {
+								continue
+							}
+							okc = false
+						}
+					}
+					if !okc {
+						lit = nil
 					}
 				}
 			}
@@ -178,7 +217,12 @@ func (u *unroller) list(l *[]ast.Stmt) bool {
 				continue
 			}
 			arr = at
-			groups = append(groups, &rowGroup{rows: lit.Elts, list: l, idx: defIdx})
+			groups = append(groups, &rowGroup{rows: lit.Elts, list: defList, idx: defIdx})
+			handedOn = append([]*types.Var{}, chain...)
+			if defList != l || len(chain) > 0 {
+				handedOn = append(handedOn, tv)
+				accountedAll = true
+			}
 			// every other use of the table is `T = append(T, rows...)` between definition and loop
 			accounted := map[*ast.Ident]bool{x: true}
 			okUses := true
@@ -234,15 +278,19 @@ func (u *unroller) list(l *[]ast.Stmt) bool {
 				}
 				return true
 			}
-			if !scan(l, false) {
-				continue
-			}
-			ast.Inspect(u.fn.Body, func(n ast.Node) bool {
-				if id, ok := n.(*ast.Ident); ok && info.Uses[id] == types.Object(tv) && !accounted[id] {
-					okUses = false
+			if defList == l && len(chain) == 0 {
+				if !scan(l, false) {
+					continue
 				}
-				return true
-			})
+			}
+			if !accountedAll {
+				ast.Inspect(u.fn.Body, func(n ast.Node) bool {
+					if id, ok := n.(*ast.Ident); ok && info.Uses[id] == types.Object(tv) && !accounted[id] {
+						okUses = false
+					}
+					return true
+				})
+			}
 			if !okUses {
 				continue
 			}
@@ -269,6 +317,7 @@ func (u *unroller) list(l *[]ast.Stmt) bool {
 			continue
 		}
 		if u.rewrite(l, j, rs, loopVar, arr, groups) {
+			u.dropNames(handedOn)
 			u.pl.res.Inlined = append(u.pl.res.Inlined, fmt.Sprintf("table of %d row(s) unrolled in %s", n, u.pl.curFunc))
 			return true
 		}
@@ -667,4 +716,164 @@ func (u *unroller) rewrite(l *[]ast.Stmt, j int, rs *ast.RangeStmt, loopVar *typ
 	}
 	*l = nl
 	return true
+}
+
+type localDef struct {
+	rhs    ast.Expr
+	list   *[]ast.Stmt
+	idx    int
+	single bool
+}
+
+// defOf finds the one definition (`x := e`, also as one pair of a parallel
+// definition, or `var x T = e`) of a local of this function, with the statement
+// list that holds it; nil when there is none or the variable is assigned again.
+func (u *unroller) defOf(v *types.Var, lenient ...bool) *localDef {
+	info := u.pl.pkg.TypesInfo
+	var found *localDef
+	n := 0
+	var lists []*[]ast.Stmt
+	ast.Inspect(u.fn.Body, func(m ast.Node) bool {
+		switch x := m.(type) {
+		case *ast.BlockStmt:
+			lists = append(lists, &x.List)
+		case *ast.CaseClause:
+			lists = append(lists, &x.Body)
+		case *ast.CommClause:
+			lists = append(lists, &x.Body)
+		}
+		return true
+	})
+	for _, l := range lists {
+		for i, s := range *l {
+			switch d := s.(type) {
+			case *ast.AssignStmt:
+				if len(d.Lhs) != len(d.Rhs) {
+					continue
+				}
+				for k, lh := range d.Lhs {
+					id, ok := lh.(*ast.Ident)
+					if !ok {
+						continue
+					}
+					if d.Tok == token.DEFINE && info.Defs[id] == types.Object(v) {
+						found = &localDef{d.Rhs[k], l, i, len(d.Lhs) == 1}
+						n++
+					} else if d.Tok != token.DEFINE && info.Uses[id] == types.Object(v) && len(lenient) == 0 {
+						n += 2 // assigned again
+					}
+				}
+			case *ast.DeclStmt:
+				gd, ok := d.Decl.(*ast.GenDecl)
+				if !ok || gd.Tok != token.VAR || len(gd.Specs) != 1 {
+					continue
+				}
+				vs := gd.Specs[0].(*ast.ValueSpec)
+				for k, nm := range vs.Names {
+					if info.Defs[nm] == types.Object(v) && len(vs.Values) == len(vs.Names) {
+						found = &localDef{vs.Values[k], l, i, len(vs.Names) == 1}
+						n++
+					}
+				}
+			}
+		}
+	}
+	if n != 1 {
+		return nil
+	}
+	return found
+}
+
+// isBlankUse: id is the right side of `_ = id` (alone or as a pair).
+func (u *unroller) isBlankUse(id *ast.Ident) bool {
+	res := false
+	ast.Inspect(u.fn.Body, func(n ast.Node) bool {
+		as, ok := n.(*ast.AssignStmt)
+		if !ok || as.Tok != token.ASSIGN || len(as.Lhs) != len(as.Rhs) {
+			return true
+		}
+		for i := range as.Rhs {
+			if as.Rhs[i] == ast.Expr(id) {
+				if l, ok := as.Lhs[i].(*ast.Ident); ok && l.Name == "_" {
+					res = true
+				}
+			}
+		}
+		return true
+	})
+	return res
+}
+
+// isHandOver: id is the right side of the definition of one of names.
+func (u *unroller) isHandOver(id *ast.Ident, names []*types.Var) bool {
+	for _, nm := range names {
+		if d := u.defOf(nm); d != nil && d.rhs == ast.Expr(id) {
+			return true
+		}
+	}
+	return false
+}
+
+// dropNames removes the definitions and blank uses of names that only handed
+// the unrolled table on.
+func (u *unroller) dropNames(names []*types.Var) {
+	if len(names) == 0 {
+		return
+	}
+	info := u.pl.pkg.TypesInfo
+	is := func(o types.Object) bool {
+		for _, nm := range names {
+			if o == types.Object(nm) {
+				return true
+			}
+		}
+		return false
+	}
+	astutil.Apply(u.fn.Body, func(c *astutil.Cursor) bool {
+		if c.Index() < 0 {
+			return true
+		}
+		switch x := c.Node().(type) {
+		case *ast.AssignStmt:
+			if len(x.Lhs) != len(x.Rhs) {
+				return true
+			}
+			var lhs, rhs []ast.Expr
+			for i := range x.Lhs {
+				drop := false
+				if lid, ok := x.Lhs[i].(*ast.Ident); ok {
+					if x.Tok == token.DEFINE && info.Defs[lid] != nil && is(info.Defs[lid]) {
+						drop = true
+					}
+					if x.Tok == token.ASSIGN && lid.Name == "_" {
+						if rid, ok := x.Rhs[i].(*ast.Ident); ok && info.Uses[rid] != nil && is(info.Uses[rid]) {
+							drop = true
+						}
+					}
+				}
+				if !drop {
+					lhs, rhs = append(lhs, x.Lhs[i]), append(rhs, x.Rhs[i])
+				}
+			}
+			if len(lhs) == len(x.Lhs) {
+				return true
+			}
+			if len(lhs) == 0 {
+				c.Delete()
+				return false
+			}
+			x.Lhs, x.Rhs = lhs, rhs
+		case *ast.DeclStmt:
+			gd, ok := x.Decl.(*ast.GenDecl)
+			if !ok || gd.Tok != token.VAR || len(gd.Specs) != 1 {
+				return true
+			}
+			vs := gd.Specs[0].(*ast.ValueSpec)
+			if len(vs.Names) == 1 && info.Defs[vs.Names[0]] != nil && is(info.Defs[vs.Names[0]]) {
+				c.Delete()
+				return false
+			}
+		}
+		return true
+	}, nil)
 }
